@@ -139,6 +139,19 @@ class VEntry:
         self.mutated = 0
 
 
+def contains_hooked(schema, depth=0):
+    from .p_c01 import iter_nodes
+    try:
+        for n, _ in iter_nodes(schema):
+            if type(n).__name__ == "HookedSchema":
+                return True
+            if type(n).__name__ == "HookedSchema" or "Hooked" in type(n).__name__:
+                return True
+    except Exception:
+        pass
+    return "hooked(" in _safe(lambda: repr(schema))
+
+
 def snap(v):
     """Deep, type-exact, NaN-safe snapshot text of a plain value that may contain schemas."""
     t = type(v)
@@ -235,6 +248,8 @@ class Machine:
         return parts
 
     def add_schema(self, sid, schema, origin, witness=None, have_witness=False):
+        if not self.nested:
+            CTL.disarm()             # hooks are faults *inside* the operation, never inside the observer
         probes = list(FOREIGN)
         if have_witness:
             probes.append(copy.deepcopy(witness))
@@ -244,7 +259,7 @@ class Machine:
                 probes.append(perturb(copy.deepcopy(witness), r))
             except Exception:
                 pass
-        e = Entry(sid, schema, probes, origin, hooked="Hooked" in _safe(lambda: repr(schema)))
+        e = Entry(sid, schema, probes, origin, hooked=contains_hooked(schema))
         e.witness = witness if have_witness else None
         e.spec = None
         e.parts = self.observe(e)
@@ -625,7 +640,7 @@ class OpGen:
         self.k = knobs
         self.n = 0
         w = {}
-        for name, base in (("declare", 3), ("refine", 3), ("combine", 3), ("substitute", 3), ("validate", 3),
+        for name, base in (("declare", 3), ("bare", 2), ("refine", 4), ("combine", 3), ("substitute", 3), ("validate", 3),
                            ("fake", 2), ("print", 1), ("read", 1), ("from_native", 1), ("mutate", 4), ("repeat", 3),
                            ("eq_schema", 1)):
             w[name] = base * r.choice((0.3, 1, 1, 2))
@@ -715,7 +730,12 @@ class OpGen:
             "DictSchema": ("__call__",), "AnySchema": ("__call__",), "BoolSchema": ("__call__",),
             "BytesSchema": ("__call__",), "NoneSchema": ("__call__",),
         }.get(kind, ("__call__",))
-        if r.random() < 0.8:
+        x0 = r.random()
+        if x0 < 0.55:
+            op = self._fresh_refinement(sid, e, kind)
+            if op is not None:
+                return op
+        if x0 < 0.85:
             name = r.choice(sensible)
         else:
             name = r.choice(("__call__", "min", "max", "precision", "len", "alphabet", "contains", "regex", "nonexistent"))
@@ -742,6 +762,74 @@ class OpGen:
             else:
                 args.append(enc(copy.deepcopy(r.choice(ARG_POOL))))
         return {"op": "refine", "s": sid, "call": [name] + args, "out": self.new_id("s")}
+
+    def _fresh_refinement(self, sid, e, kind):
+        """A refinement that is still *allowed* on this schema (so that it usually succeeds)."""
+        from niltype import Nil
+        r = self.r
+        p = e.schema.props
+        has = lambda n: p.get(n) is not Nil   # noqa: E731
+        cands = []
+        try:
+            if kind in ("IntSchema", "FloatSchema"):
+                conv = (lambda x: x) if kind == "IntSchema" else float
+                val = p.get("value")
+                lo = p.get("min")
+                hi = p.get("max")
+                base = val if val is not Nil else (lo if lo is not Nil else (hi if hi is not Nil else conv(r.randint(-5, 5))))
+                if not has("min"):
+                    cands.append(["min", enc(conv(base - r.choice((0, 1, 10))))])
+                if not has("max"):
+                    cands.append(["max", enc(conv(base + r.choice((0, 1, 10))))])
+                if kind == "FloatSchema" and not has("precision"):
+                    cands.append(["precision", r.choice((1, 2, 5))])
+                if not (has("value") or has("min") or has("max")):
+                    cands.append(["__call__", enc(conv(r.randint(-9, 9)))])
+            elif kind == "StrSchema":
+                val = p.get("value")
+                if not has("pattern"):
+                    if not (has("len") or has("min_len") or has("max_len")):
+                        n = len(val) if val is not Nil else r.randint(0, 5)
+                        cands.append(r.choice((["len", n], ["len", max(0, n - 1), n + 2], ["len", enc(...), n + 3], ["len", n, enc(...)])))
+                    if not has("alphabet"):
+                        cands.append(["alphabet", (val if val is not Nil else "") + "abcxyz"])
+                    if not has("substr"):
+                        cands.append(["contains", (val[:1] if (val is not Nil and val) else "")])
+                if not any(has(n) for n in ("value", "len", "min_len", "max_len", "alphabet", "substr", "pattern")):
+                    cands.append(["__call__", r.choice(("", "abc", "x y"))])
+                    cands.append(["regex", r.choice(("[a-c]+", "\\d{2}", "x|y"))])
+            elif kind == "ListSchema":
+                if not (has("len") or has("min_len") or has("max_len")):
+                    els = p.get("elements")
+                    n = len([x for x in els if x is not ...]) if els is not Nil else r.randint(0, 3)
+                    exact = els is not Nil and not any(x is ... for x in els)
+                    cands.append(["len", n] if exact else r.choice((["len", n], ["len", enc(...), n + 2], ["len", 0, n + 2] if els is Nil else ["len", n])))
+                if not (has("elements") or has("type") or has("len") or has("min_len") or has("max_len")):
+                    cands.append(["__call__", {"$schema": self.pick_sid()}])
+                    cands.append(["__call__", {"$schemas": [self.pick_sid() for _ in range(r.randint(0, 3))]}])
+            elif kind == "DictSchema" and not has("keys"):
+                cands.append(["__call__", {"$schemadict": [[enc(kk), r.random() < 0.3, self.pick_sid()] for kk in r.sample(("a", "b", "id"), r.randint(0, 3))]}])
+            elif kind == "AnySchema" and not has("types"):
+                cands.append(["__call__", {"$schema": self.pick_sid()}, {"$schema": self.pick_sid()}])
+            elif kind == "BoolSchema" and not has("value"):
+                cands.append(["__call__", r.random() < 0.5])
+            elif kind == "BytesSchema" and not has("value"):
+                cands.append(["__call__", enc(b"ab")])
+        except Exception:
+            return None
+        if not cands:
+            return None
+        call = r.choice(cands)
+        return {"op": "refine", "s": sid, "call": call, "out": self.new_id("s")}
+
+    def g_bare(self):
+        """A bare type (nothing declared yet), so that refinements have something to build on."""
+        r = self.r
+        t = r.choice(("int", "float", "str", "list", "dict", "any", "bool", "bytes", "str", "int"))
+        spec = {"t": t}
+        if t in ("int", "float", "str"):
+            spec["order"] = []
+        return {"op": "declare", "spec": spec, "out": self.new_id("s")}
 
     def g_combine(self):
         r = self.r
